@@ -4,8 +4,9 @@
 
    Fragment ([frag F t]): no replacing mode anywhere ([nonrepl F]: f_alt = f_balt = None), and [okI F] on every node:
    plain nodes carry non-structural operators (well-formedness of the tree; parse_body only produces such trees),
-   no semantic-after on a branch instruction, no block-exit on an `if` whose then-arm contains a block-like
-   instruction (the D15 shape).
+   no semantic-after on a branch instruction.  (Before the repair of D15 -- block-exit of an `if` resolved at the
+   next else / end of the flat stream -- the fragment also had to exclude block-exit on an `if` whose then-arm
+   contains a block-like instruction; resolve_on_else_or_end is now keyed by the block id and the clause is gone.)
 
    Main results
      resolve_flatten        emit (fst (resolve true [] [] ty (flatF F t ++ [(FEnd, F fe)]) loc))
@@ -29,7 +30,7 @@
                             (the second per-case tie follows from the first).
 
    Technique: induction on the tree (instr_ind2), generalised over the depth (block stack = stack_of d), the pending
-   r_ron entries of enclosing constructs ([fresh d m]: no key >= d), r_roe, and the exit probes X; one step lemma per
+   r_ron / r_roe entries of enclosing constructs ([fresh d m], [fresh d q]: no key >= d), and the exit probes X; one step lemma per
    structural operator (step_open3 / step_if3 / step_else3 / step_end3 / step_plain3) on [rstep3] = rstep after the
    entry / exit stages; [ent d B A m] is the canonical form of the construct's own r_ron entry. *)
 From Coq Require Import List Arith NArith ZArith Bool Lia.
@@ -184,7 +185,7 @@ Definition rstep3 (op : fop) (orig : flags) (st : rstate) (w : flags) : rstate *
       | None => flag_stage op orig st w
       end
   | FElse =>
-      let '(st, w) := resolve_roe st w in
+      let '(st, w) := match r_stack st with [] => (st, w) | k :: _ => resolve_roe k st w end in
       match block_alt_case true orig st w with
       | Some r => r
       | None => flag_stage op orig st w
@@ -195,7 +196,7 @@ Definition rstep3 (op : fop) (orig : flags) (st : rstate) (w : flags) : rstate *
       | block_id :: rest =>
           let st := set_stack rest st in
           let cont (st : rstate) (w : flags) :=
-            let '(st, w) := resolve_roe st w in
+            let '(st, w) := resolve_roe block_id st w in
             let '(st, w) :=
               match ron_get block_id (r_ron st) with
               | Some p => (set_ron (ron_remove block_id (r_ron st)) st, resolve_pend2 p w)
@@ -262,12 +263,11 @@ Fixpoint okI (x : instr) : bool :=
   match x with
   | IPlain i o => plain_op o && (negb (is_branching o) || is_nil (f_sa (F i)))
   | IBlock _ _ _ b | ILoop _ _ _ b => forallb okI b
-  | IIf i _ _ _ t e =>
-      negb (negb (is_nil (f_bx (F i))) && existsb blocklike t) && forallb okI t && forallb okI e
+  | IIf _ _ _ _ t e => forallb okI t && forallb okI e
   end.
 
 (* the state of the pass inside a function body of the fragment *)
-Definition St (d : nat) (ret : bool) (q : list (list fop)) (m : list (nat * pend2)) (loc : Lowering.locals) : rstate :=
+Definition St (d : nat) (ret : bool) (q m : list (nat * pend2)) (loc : Lowering.locals) : rstate :=
   mkR [] X (stack_of d) None ret q m loc.
 
 Ltac fields := cbn [r_entry r_exit r_stack r_del r_retain r_roe r_ron r_loc
@@ -296,12 +296,12 @@ Proof.
 Qed.
 
 Lemma step_if3 bt i d ret q m loc w0 :
-  ron_get d m = None ->
+  ron_get d m = None -> ron_get d q = None ->
   exists w, rstep3 (FIf bt) (F i) (St d ret q m loc) w0
-            = (St (S d) ret (q ++ (if is_nil (bx_ i) then [] else [bx_ i])) (ent d [] (addc (sa_ i) []) m) loc, w)
+            = (St (S d) ret (ent d (addc (bx_ i) []) [] q) (ent d [] (addc (sa_ i) []) m) loc, w)
     /\ f_before w = f_before w0 /\ f_after w = f_after w0 ++ be_ i /\ f_alt w = f_alt w0.
 Proof.
-  intros Hm.
+  intros Hm Hq.
   assert (E : rstep3 (FIf bt) (F i) (St d ret q m loc) w0 = flag_stage (FIf bt) (F i) (St (S d) ret q m loc) w0).
   { unfold St, rstep3; fields.
     rewrite stack_of_length, <- stack_of_S; unfold block_alt_case; rewrite (proj2 (HNR i)); reflexivity. }
@@ -312,61 +312,69 @@ Proof.
   destruct R as (R1&R2&R3&R4&R5&R6&R7&R8&R9&R10&R11).
   exists w'. split; [|auto].
   f_equal. apply rstate_eta; fields; auto.
-  rewrite R8, top_stack_of_S. change m with (ent d [] [] m) at 1.
-  rewrite rega_ent by exact Hm. reflexivity.
+  - rewrite R7, top_stack_of_S. change q with (ent d [] [] q) at 1. rewrite regb_ent by exact Hq. reflexivity.
+  - rewrite R8, top_stack_of_S. change m with (ent d [] [] m) at 1.
+    rewrite rega_ent by exact Hm. reflexivity.
 Qed.
 
-Lemma step_else3 x d ret q A m loc w0 :
-  ron_get d m = None ->
-  exists w, rstep3 FElse (F x) (St (S d) ret q (ent d [] A m) loc) w0
-            = (St (S d) ret [] (ent d (addc (bx_ x) []) (addc (sa_ x) A) m) loc, w)
-    /\ f_before w = f_before w0 ++ concat q /\ f_after w = f_after w0 ++ be_ x /\ f_alt w = f_alt w0.
+(* resolve_on_else_or_end.remove(&d): the entry of the `if` with id d, if any *)
+Lemma resolve_roe_ent d ret st_stack Bq q m loc w0 :
+  ron_get d q = None ->
+  exists w1, resolve_roe d (mkR [] X st_stack None ret (ent d Bq [] q) m loc) w0 = (mkR [] X st_stack None ret q m loc, w1)
+    /\ f_before w1 = f_before w0 ++ concat Bq /\ f_after w1 = f_after w0 /\ f_alt w1 = f_alt w0.
 Proof.
-  intros Hm.
-  set (w1 := match q with [] => w0 | _ => w_before (concat q) w0 end).
-  assert (W1 : f_before w1 = f_before w0 ++ concat q /\ f_after w1 = f_after w0 /\ f_alt w1 = f_alt w0).
-  { unfold w1. destruct q; [cbn [concat]; rewrite app_nil_r; auto|]. cbn [w_before f_before f_after f_alt]. auto. }
-  assert (E : rstep3 FElse (F x) (St (S d) ret q (ent d [] A m) loc) w0
-              = flag_stage FElse (F x) (St (S d) ret [] (ent d [] A m) loc) w1).
-  { unfold St, rstep3, resolve_roe; fields.
+  intros Hq. unfold resolve_roe; fields.
+  destruct (end_ent d Bq [] q Hq) as [(G1&G2&G3&G4)|(p&G1&G2&G3&G4)]; rewrite G1.
+  - rewrite G2. exists w0. subst Bq. cbn [concat]. rewrite app_nil_r. auto.
+  - rewrite G2. exists (resolve_pend2 p w0). split; [reflexivity|].
+    unfold resolve_pend2. cbn [w_before w_after f_before f_after f_alt]. rewrite G3, G4. cbn [concat]. rewrite app_nil_r. auto.
+Qed.
+
+Lemma step_else3 x d ret Bq q A m loc w0 :
+  ron_get d m = None -> ron_get d q = None ->
+  exists w, rstep3 FElse (F x) (St (S d) ret (ent d Bq [] q) (ent d [] A m) loc) w0
+            = (St (S d) ret q (ent d (addc (bx_ x) []) (addc (sa_ x) A) m) loc, w)
+    /\ f_before w = f_before w0 ++ concat Bq /\ f_after w = f_after w0 ++ be_ x /\ f_alt w = f_alt w0.
+Proof.
+  intros Hm Hq.
+  destruct (resolve_roe_ent d ret (stack_of (S d)) Bq q (ent d [] A m) loc w0 Hq) as (w1 & ER & W1 & W2 & W3).
+  assert (E : rstep3 FElse (F x) (St (S d) ret (ent d Bq [] q) (ent d [] A m) loc) w0
+              = flag_stage FElse (F x) (St (S d) ret q (ent d [] A m) loc) w1).
+  { unfold St, rstep3; fields. rewrite stack_of_S. rewrite <- (stack_of_S d), ER.
     unfold block_alt_case; fields. rewrite (proj2 (HNR x)). reflexivity. }
   rewrite E. unfold St.
-  pose proof (flag_stage_reg FElse (F x) (mkR [] X (stack_of (S d)) None ret [] (ent d [] A m) loc) w1 (or_introl eq_refl)) as R.
-  destruct (flag_stage FElse (F x) (mkR [] X (stack_of (S d)) None ret [] (ent d [] A m) loc) w1) as [st' w'] eqn:EF.
+  pose proof (flag_stage_reg FElse (F x) (mkR [] X (stack_of (S d)) None ret q (ent d [] A m) loc) w1 (or_introl eq_refl)) as R.
+  destruct (flag_stage FElse (F x) (mkR [] X (stack_of (S d)) None ret q (ent d [] A m) loc) w1) as [st' w'] eqn:EF.
   cbn [r_entry r_exit r_stack r_del r_retain r_roe r_ron r_loc] in R.
   destruct R as (R1&R2&R3&R4&R5&R6&R7&R8&R9&R10&R11).
-  destruct W1 as (W1&W2&W3).
   exists w'. split; [|rewrite R9, R10, R11, W1, W2, W3; auto].
   f_equal. apply rstate_eta; fields; auto.
   rewrite R8, top_stack_of_S.
   rewrite regb_ent, rega_ent by exact Hm. reflexivity.
 Qed.
 
-Lemma step_end3 e d ret q B A m loc w0 :
-  ron_get d m = None ->
-  exists w, rstep3 FEnd (F e) (St (S d) ret q (ent d B A m) loc) w0
-            = (St d ret [] m loc, w)
-    /\ f_before w = f_before w0 ++ concat q ++ concat B /\ f_after w = f_after w0 ++ concat A /\ f_alt w = f_alt w0.
+Lemma step_end3 e d ret Bq q B A m loc w0 :
+  ron_get d m = None -> ron_get d q = None ->
+  exists w, rstep3 FEnd (F e) (St (S d) ret (ent d Bq [] q) (ent d B A m) loc) w0
+            = (St d ret q m loc, w)
+    /\ f_before w = f_before w0 ++ concat Bq ++ concat B /\ f_after w = f_after w0 ++ concat A /\ f_alt w = f_alt w0.
 Proof.
-  intros Hm.
-  set (w1 := match q with [] => w0 | _ => w_before (concat q) w0 end).
-  assert (W1 : f_before w1 = f_before w0 ++ concat q /\ f_after w1 = f_after w0 /\ f_alt w1 = f_alt w0).
-  { unfold w1. destruct q; [cbn [concat]; rewrite app_nil_r; auto|]. cbn [w_before f_before f_after f_alt]. auto. }
-  destruct W1 as (W1&W2&W3).
-  assert (E : rstep3 FEnd (F e) (St (S d) ret q (ent d B A m) loc) w0
+  intros Hm Hq.
+  destruct (resolve_roe_ent d ret (stack_of d) Bq q (ent d B A m) loc w0 Hq) as (w1 & ER & W1 & W2 & W3).
+  assert (E : rstep3 FEnd (F e) (St (S d) ret (ent d Bq [] q) (ent d B A m) loc) w0
               = let '(st, w) :=
                   match ron_get d (ent d B A m) with
-                  | Some p => (St d ret [] (ron_remove d (ent d B A m)) loc, resolve_pend2 p w1)
-                  | None => (St d ret [] (ent d B A m) loc, w1)
+                  | Some p => (St d ret q (ron_remove d (ent d B A m)) loc, resolve_pend2 p w1)
+                  | None => (St d ret q (ent d B A m) loc, w1)
                   end in flag_stage FEnd (F e) st w).
-  { unfold St, rstep3; fields. rewrite stack_of_S. unfold resolve_roe; fields. reflexivity. }
+  { unfold St, rstep3; fields. rewrite stack_of_S. unfold set_stack; fields. rewrite ER. fields. reflexivity. }
   rewrite E. clear E.
   destruct (end_ent d B A m Hm) as [(G1&G2&G3&G4)|(p&G1&G2&G3&G4)]; rewrite G1.
   - rewrite G2.
-    destruct (flag_stage_leaf FEnd (F e) (St d ret [] m loc) w1 eq_refl ltac:(discriminate)) as (w'&E1&E2&E3&E4).
+    destruct (flag_stage_leaf FEnd (F e) (St d ret q m loc) w1 eq_refl ltac:(discriminate)) as (w'&E1&E2&E3&E4).
     exists w'. split; [exact E1|]. subst B A. cbn [concat]. rewrite !app_nil_r, E2, E3, E4. auto.
   - rewrite G2.
-    destruct (flag_stage_leaf FEnd (F e) (St d ret [] m loc) (resolve_pend2 p w1) eq_refl ltac:(discriminate)) as (w'&E1&E2&E3&E4).
+    destruct (flag_stage_leaf FEnd (F e) (St d ret q m loc) (resolve_pend2 p w1) eq_refl ltac:(discriminate)) as (w'&E1&E2&E3&E4).
     exists w'. split; [exact E1|]. rewrite E2, E3, E4.
     unfold resolve_pend2. cbn [w_before w_after f_before f_after f_alt]. rewrite G3, G4, W1, W2, W3, <- app_assoc. auto.
 Qed.
@@ -453,11 +461,11 @@ Qed.
 
 (* ---------- the main lemma: a subtree leaves the state of the pass unchanged and emits its lowering ---------- *)
 Definition P1 (x : instr) : Prop := forall last idx d ret q m loc,
-  fresh d m -> (q = [] \/ blocklike x = false) -> okI x = true -> idx + length (flatF1 F x) <= last ->
+  fresh d m -> fresh d q -> okI x = true -> idx + length (flatF1 F x) <= last ->
   exists out, rloop last idx (flatF1 F x) (St d ret q m loc) = (out, St d ret q m loc)
               /\ emit_mid out = flat (lower x).
 Definition PL (t : list instr) : Prop := forall last idx d ret q m loc,
-  fresh d m -> (q = [] \/ existsb blocklike t = false) -> forallb okI t = true -> idx + length (flatF F t) <= last ->
+  fresh d m -> fresh d q -> forallb okI t = true -> idx + length (flatF F t) <= last ->
   exists out, rloop last idx (flatF F t) (St d ret q m loc) = (out, St d ret q m loc)
               /\ emit_mid out = flat (flat_map lower t).
 
@@ -468,12 +476,8 @@ Proof.
   - cbn [forallb] in Hok. apply andb_prop in Hok as [Hok1 Hok2].
     change (flatF F (x :: t)) with (flatF1 F x ++ flatF F t) in *. rewrite app_length in Hlen.
     change (flat_map lower (x :: t)) with (lower x ++ flat_map lower t).
-    assert (Hq1 : q = [] \/ blocklike x = false).
-    { destruct Hq as [Hq|Hq]; [left; exact Hq|right]. cbn [existsb] in Hq. apply orb_false_elim in Hq. tauto. }
-    assert (Hq2 : q = [] \/ existsb blocklike t = false).
-    { destruct Hq as [Hq|Hq]; [left; exact Hq|right]. cbn [existsb] in Hq. apply orb_false_elim in Hq. tauto. }
-    destruct (Hx last idx d ret q m loc Hf Hq1 Hok1 ltac:(lia)) as (o1 & E1 & M1).
-    destruct (IH last (idx + length (flatF1 F x)) d ret q m loc Hf Hq2 Hok2 ltac:(lia)) as (o2 & E2 & M2).
+    destruct (Hx last idx d ret q m loc Hf Hq Hok1 ltac:(lia)) as (o1 & E1 & M1).
+    destruct (IH last (idx + length (flatF1 F x)) d ret q m loc Hf Hq Hok2 ltac:(lia)) as (o2 & E2 & M2).
     exists (o1 ++ o2). split.
     + eapply rloop_app2; eassumption.
     + rewrite emit_mid_app, M1, M2, flat_app. reflexivity.
@@ -504,92 +508,85 @@ Proof.
     exists [(o, w)]. split; [apply rloop_one; exact E|].
     rewrite emit_mid_one, M, flat_lower_plain. reflexivity.
   - (* block *)
-    destruct Hq as [-> | Hq]; [|discriminate Hq].
     cbn [okI] in Hok. cbn [flatF1] in *. cbn [length] in Hlen. rewrite app_length in Hlen. cbn [length] in Hlen.
-    pose proof (Hf d (le_n d)) as Hm.
-    destruct (mid_emit last idx (FBlock bt) i (St d ret [] m loc)
-                (St (S d) ret [] (ent d (addc (bx_ i) []) (addc (sa_ i) []) m) loc) [] (be_ i) ltac:(lia) eq_refl eq_refl) as (w1 & E1 & M1).
-    { intros w0. destruct (step_open3 (FBlock bt) i d ret [] m loc w0 ltac:(eauto) Hm) as (w & E & W1 & W2 & W3).
+    pose proof (Hf d (le_n d)) as Hm. pose proof (Hq d (le_n d)) as Hqd.
+    destruct (mid_emit last idx (FBlock bt) i (St d ret q m loc)
+                (St (S d) ret q (ent d (addc (bx_ i) []) (addc (sa_ i) []) m) loc) [] (be_ i) ltac:(lia) eq_refl eq_refl) as (w1 & E1 & M1).
+    { intros w0. destruct (step_open3 (FBlock bt) i d ret q m loc w0 ltac:(eauto) Hm) as (w & E & W1 & W2 & W3).
       exists w. rewrite !app_nil_r. auto. }
-    destruct (PL_of_Forall b IHb last (S idx) (S d) ret [] (ent d (addc (bx_ i) []) (addc (sa_ i) []) m) loc
-                (fresh_ent _ _ _ _ Hf) (or_introl eq_refl) Hok ltac:(unfold flatF; lia)) as (o2 & E2 & M2).
-    destruct (mid_emit last (S idx + length (flatF F b)) FEnd e (St (S d) ret [] (ent d (addc (bx_ i) []) (addc (sa_ i) []) m) loc)
-                (St d ret [] m loc) (concat [] ++ concat (addc (bx_ i) [])) (concat (addc (sa_ i) [])) ltac:(unfold flatF; lia) eq_refl eq_refl) as (w3 & E3 & M3).
-    { intros w0. apply step_end3. exact Hm. }
+    destruct (PL_of_Forall b IHb last (S idx) (S d) ret q (ent d (addc (bx_ i) []) (addc (sa_ i) []) m) loc
+                (fresh_ent _ _ _ _ Hf) (fresh_ent d [] [] q Hq) Hok ltac:(unfold flatF; lia)) as (o2 & E2 & M2).
+    destruct (mid_emit last (S idx + length (flatF F b)) FEnd e (St (S d) ret q (ent d (addc (bx_ i) []) (addc (sa_ i) []) m) loc)
+                (St d ret q m loc) (concat [] ++ concat (addc (bx_ i) [])) (concat (addc (sa_ i) [])) ltac:(unfold flatF; lia) eq_refl eq_refl) as (w3 & E3 & M3).
+    { intros w0. apply (step_end3 e d ret [] q); assumption. }
     exists ((FBlock bt, w1) :: o2 ++ [(FEnd, w3)]). split.
     + eapply rloop_cons; [exact E1|]. eapply rloop_app2; [exact E2|]. apply rloop_one. exact E3.
     + rewrite emit_mid_cons, emit_mid_app, emit_mid_one, M1, M2, M3, flat_lower_block, !addc_nil.
       cbn [is_exit_op concat]. rewrite <- !app_assoc. cbn [app]. reflexivity.
   - (* loop *)
-    destruct Hq as [-> | Hq]; [|discriminate Hq].
     cbn [okI] in Hok. cbn [flatF1] in *. cbn [length] in Hlen. rewrite app_length in Hlen. cbn [length] in Hlen.
-    pose proof (Hf d (le_n d)) as Hm.
-    destruct (mid_emit last idx (FLoop bt) i (St d ret [] m loc)
-                (St (S d) ret [] (ent d (addc (bx_ i) []) (addc (sa_ i) []) m) loc) [] (be_ i) ltac:(lia) eq_refl eq_refl) as (w1 & E1 & M1).
-    { intros w0. destruct (step_open3 (FLoop bt) i d ret [] m loc w0 ltac:(eauto) Hm) as (w & E & W1 & W2 & W3).
+    pose proof (Hf d (le_n d)) as Hm. pose proof (Hq d (le_n d)) as Hqd.
+    destruct (mid_emit last idx (FLoop bt) i (St d ret q m loc)
+                (St (S d) ret q (ent d (addc (bx_ i) []) (addc (sa_ i) []) m) loc) [] (be_ i) ltac:(lia) eq_refl eq_refl) as (w1 & E1 & M1).
+    { intros w0. destruct (step_open3 (FLoop bt) i d ret q m loc w0 ltac:(eauto) Hm) as (w & E & W1 & W2 & W3).
       exists w. rewrite !app_nil_r. auto. }
-    destruct (PL_of_Forall b IHb last (S idx) (S d) ret [] (ent d (addc (bx_ i) []) (addc (sa_ i) []) m) loc
-                (fresh_ent _ _ _ _ Hf) (or_introl eq_refl) Hok ltac:(unfold flatF; lia)) as (o2 & E2 & M2).
-    destruct (mid_emit last (S idx + length (flatF F b)) FEnd e (St (S d) ret [] (ent d (addc (bx_ i) []) (addc (sa_ i) []) m) loc)
-                (St d ret [] m loc) (concat [] ++ concat (addc (bx_ i) [])) (concat (addc (sa_ i) [])) ltac:(unfold flatF; lia) eq_refl eq_refl) as (w3 & E3 & M3).
-    { intros w0. apply step_end3. exact Hm. }
+    destruct (PL_of_Forall b IHb last (S idx) (S d) ret q (ent d (addc (bx_ i) []) (addc (sa_ i) []) m) loc
+                (fresh_ent _ _ _ _ Hf) (fresh_ent d [] [] q Hq) Hok ltac:(unfold flatF; lia)) as (o2 & E2 & M2).
+    destruct (mid_emit last (S idx + length (flatF F b)) FEnd e (St (S d) ret q (ent d (addc (bx_ i) []) (addc (sa_ i) []) m) loc)
+                (St d ret q m loc) (concat [] ++ concat (addc (bx_ i) [])) (concat (addc (sa_ i) [])) ltac:(unfold flatF; lia) eq_refl eq_refl) as (w3 & E3 & M3).
+    { intros w0. apply (step_end3 e d ret [] q); assumption. }
     exists ((FLoop bt, w1) :: o2 ++ [(FEnd, w3)]). split.
     + eapply rloop_cons; [exact E1|]. eapply rloop_app2; [exact E2|]. apply rloop_one. exact E3.
     + rewrite emit_mid_cons, emit_mid_app, emit_mid_one, M1, M2, M3, flat_lower_loop, !addc_nil.
       cbn [is_exit_op concat]. rewrite <- !app_assoc. cbn [app]. reflexivity.
-  - (* if *)
-    destruct Hq as [-> | Hq]; [|discriminate Hq].
-    cbn [okI] in Hok. apply andb_prop in Hok as [Hok Hoke]. apply andb_prop in Hok as [Hd15 Hokt].
-    pose proof (Hf d (le_n d)) as Hm.
-    set (qi := if is_nil (bx_ i) then [] else [bx_ i]).
-    assert (Hqi : qi = [] \/ existsb blocklike t = false).
-    { unfold qi, TreeLower.bx_. destruct (f_bx (F i)); cbn [is_nil negb andb] in *; [left; reflexivity|right].
-      destruct (existsb blocklike t); [discriminate Hd15|reflexivity]. }
-    assert (Cqi : concat qi = bx_ i).
-    { unfold qi. destruct (bx_ i); cbn [is_nil concat]; rewrite ?app_nil_r; reflexivity. }
-    destruct (mid_emit last idx (FIf bt) i (St d ret [] m loc)
+  - (* if: the block-exit code waits in r_roe under the if's own id, whatever the then-arm contains *)
+    cbn [okI] in Hok. apply andb_prop in Hok as [Hokt Hoke].
+    pose proof (Hf d (le_n d)) as Hm. pose proof (Hq d (le_n d)) as Hqd.
+    set (qi := ent d (addc (bx_ i) []) [] q).
+    assert (Fqi : fresh (S d) qi) by (apply fresh_ent; exact Hq).
+    destruct (mid_emit last idx (FIf bt) i (St d ret q m loc)
                 (St (S d) ret qi (ent d [] (addc (sa_ i) []) m) loc) [] (be_ i)) as (w1 & E1 & M1);
       [cbn [flatF1 length] in Hlen; lia|reflexivity|reflexivity| |].
-    { intros w0. destruct (step_if3 bt i d ret [] m loc w0 Hm) as (w & E & W1 & W2 & W3).
+    { intros w0. destruct (step_if3 bt i d ret q m loc w0 Hm Hqd) as (w & E & W1 & W2 & W3).
       exists w. rewrite !app_nil_r. auto. }
     destruct el as [x|].
     + (* with else *)
       cbn [flatF1] in *. cbn [length] in Hlen. rewrite !app_length in Hlen. cbn [length] in Hlen. rewrite ?app_length in Hlen. cbn [length] in Hlen.
       destruct (PL_of_Forall t IHt last (S idx) (S d) ret qi (ent d [] (addc (sa_ i) []) m) loc
-                  (fresh_ent _ _ _ _ Hf) Hqi Hokt ltac:(unfold flatF; lia)) as (o2 & E2 & M2).
+                  (fresh_ent _ _ _ _ Hf) Fqi Hokt ltac:(unfold flatF; lia)) as (o2 & E2 & M2).
       destruct (mid_emit last (S idx + length (flatF F t)) FElse x (St (S d) ret qi (ent d [] (addc (sa_ i) []) m) loc)
-                  (St (S d) ret [] (ent d (addc (bx_ x) []) (addc (sa_ x) (addc (sa_ i) [])) m) loc)
-                  (concat qi) (be_ x) ltac:(unfold flatF; lia) eq_refl eq_refl) as (w3 & E3 & M3).
-      { intros w0. apply step_else3. exact Hm. }
-      destruct (PL_of_Forall els IHe last (S (S idx + length (flatF F t))) (S d) ret []
+                  (St (S d) ret q (ent d (addc (bx_ x) []) (addc (sa_ x) (addc (sa_ i) [])) m) loc)
+                  (concat (addc (bx_ i) [])) (be_ x) ltac:(unfold flatF; lia) eq_refl eq_refl) as (w3 & E3 & M3).
+      { intros w0. apply step_else3; assumption. }
+      destruct (PL_of_Forall els IHe last (S (S idx + length (flatF F t))) (S d) ret q
                   (ent d (addc (bx_ x) []) (addc (sa_ x) (addc (sa_ i) [])) m) loc
-                  (fresh_ent _ _ _ _ Hf) (or_introl eq_refl) Hoke ltac:(unfold flatF; lia)) as (o4 & E4 & M4).
+                  (fresh_ent _ _ _ _ Hf) (fresh_ent d [] [] q Hq) Hoke ltac:(unfold flatF; lia)) as (o4 & E4 & M4).
       destruct (mid_emit last (S (S idx + length (flatF F t)) + length (flatF F els)) FEnd e
-                  (St (S d) ret [] (ent d (addc (bx_ x) []) (addc (sa_ x) (addc (sa_ i) [])) m) loc)
-                  (St d ret [] m loc) (concat [] ++ concat (addc (bx_ x) [])) (concat (addc (sa_ x) (addc (sa_ i) [])))
+                  (St (S d) ret q (ent d (addc (bx_ x) []) (addc (sa_ x) (addc (sa_ i) [])) m) loc)
+                  (St d ret q m loc) (concat [] ++ concat (addc (bx_ x) [])) (concat (addc (sa_ x) (addc (sa_ i) [])))
                   ltac:(unfold flatF; lia) eq_refl eq_refl) as (w5 & E5 & M5).
-      { intros w0. apply step_end3. exact Hm. }
+      { intros w0. apply (step_end3 e d ret [] q); assumption. }
       exists ((FIf bt, w1) :: o2 ++ ((FElse, w3) :: o4) ++ [(FEnd, w5)]). split.
       * eapply rloop_cons; [exact E1|]. eapply rloop_app2; [exact E2|].
         eapply rloop_app2; [eapply rloop_cons; [exact E3|exact E4]|].
-        apply rloop_one. cbn [length]. 
+        apply rloop_one. cbn [length].
         match goal with |- rstep _ ?n _ _ _ = _ =>
           replace n with (S (S idx + length (flatF F t)) + length (flatF F els)) by (unfold flatF; lia) end.
         exact E5.
       * rewrite emit_mid_cons, !emit_mid_app, emit_mid_cons, emit_mid_one, M1, M2, M3, M4, M5, flat_lower_if_else.
-        rewrite !concat_addc, Cqi. cbn [is_exit_op concat]. repeat (rewrite <- !app_assoc; cbn [app]). reflexivity.
+        rewrite !concat_addc. cbn [is_exit_op concat]. repeat (rewrite <- !app_assoc; cbn [app]). reflexivity.
     + (* without else *)
       cbn [flatF1] in *. cbn [length] in Hlen. rewrite !app_length in Hlen. cbn [length] in Hlen.
       destruct (PL_of_Forall t IHt last (S idx) (S d) ret qi (ent d [] (addc (sa_ i) []) m) loc
-                  (fresh_ent _ _ _ _ Hf) Hqi Hokt ltac:(unfold flatF; lia)) as (o2 & E2 & M2).
+                  (fresh_ent _ _ _ _ Hf) Fqi Hokt ltac:(unfold flatF; lia)) as (o2 & E2 & M2).
       destruct (mid_emit last (S idx + length (flatF F t)) FEnd e (St (S d) ret qi (ent d [] (addc (sa_ i) []) m) loc)
-                  (St d ret [] m loc) (concat qi ++ concat []) (concat (addc (sa_ i) []))
+                  (St d ret q m loc) (concat (addc (bx_ i) []) ++ concat []) (concat (addc (sa_ i) []))
                   ltac:(unfold flatF; lia) eq_refl eq_refl) as (w3 & E3 & M3).
-      { intros w0. apply step_end3. exact Hm. }
+      { intros w0. apply step_end3; assumption. }
       exists ((FIf bt, w1) :: o2 ++ [(FEnd, w3)]). split.
       * eapply rloop_cons; [exact E1|]. eapply rloop_app2; [exact E2|]. apply rloop_one. exact E3.
       * rewrite emit_mid_cons, !emit_mid_app, emit_mid_one, M1, M2, M3, flat_lower_if_noelse.
-        rewrite !concat_addc, Cqi. cbn [is_exit_op concat]. repeat (rewrite <- !app_assoc; cbn [app]). reflexivity.
+        rewrite !concat_addc. cbn [is_exit_op concat]. repeat (rewrite <- !app_assoc; cbn [app]). reflexivity.
 Qed.
 
 End Flatten.
@@ -610,9 +607,9 @@ Lemma step_final (F : nat -> flags) (X : list fop) (HNR : forall i, f_alt (F i) 
 Proof.
   unfold rstep. cbn [r_entry r_exit is_nil negb andb is_exit_op]. rewrite Nat.eqb_refl.
   destruct X as [|x0 X0]; cbn [is_nil].
-  - destruct (step_end3 F [] fe 0 true [] [] [] [] loc (F fe) eq_refl) as (w & E & W1 & W2 & W3).
+  - destruct (step_end3 F [] fe 0 true [] [] [] [] [] loc (F fe) eq_refl eq_refl) as (w & E & W1 & W2 & W3).
     exists w. split; [exact E|]. rewrite W1, W3. cbn [concat]. rewrite !app_nil_r. split; [reflexivity|apply HNR].
-  - destruct (step_end3 F [] fe 0 true [] [] [] [] loc (w_before ([FEnd] ++ x0 :: X0) (F fe)) eq_refl) as (w & E & W1 & W2 & W3).
+  - destruct (step_end3 F [] fe 0 true [] [] [] [] [] loc (w_before ([FEnd] ++ x0 :: X0) (F fe)) eq_refl eq_refl) as (w & E & W1 & W2 & W3).
     exists w. split; [exact E|]. rewrite W1, W3. cbn [concat w_before f_before f_alt]. rewrite !app_nil_r. split; [reflexivity|apply HNR].
 Qed.
 
@@ -628,7 +625,7 @@ Lemma body_run (F : nat -> flags) (X : list fop) (HNR : forall i, f_alt (F i) = 
 Proof.
   intros Hok. rewrite app_length. cbn [length]. replace (length (flatF F t) + 1 - 1) with (length (flatF F t)) by lia.
   destruct (PL_of_Forall F X t (proj2 (Forall_forall _ _) (fun x _ => P1_all F X HNR x))
-              (length (flatF F t)) 0 1 true [] [] loc ltac:(intros k _; reflexivity) (or_introl eq_refl) Hok ltac:(lia))
+              (length (flatF F t)) 0 1 true [] [] loc ltac:(intros k _; reflexivity) ltac:(intros k _; reflexivity) Hok ltac:(lia))
     as (out & E & M).
   destruct (step_final F X HNR (length (flatF F t)) fe loc) as (w & E2 & W1 & W3).
   exists out, w, (mkR [] [] [] None true [] [] loc). split; [|split; [reflexivity|split; [|auto]]].
@@ -647,7 +644,7 @@ Qed.
 (* The fragment *)
 Definition nonrepl (F : nat -> flags) : Prop := forall i, f_alt (F i) = None /\ f_balt (F i) = None.
 (* [okI F x]: plain nodes carry non-structural operators (well-formedness), no semantic-after on a branch
-   instruction, no block-exit on an `if` whose then-arm contains a block-like instruction (D15) *)
+   instruction *)
 Definition frag (F : nat -> flags) (t : list instr) : Prop := nonrepl F /\ forallb (okI F) t = true.
 
 (* ---------- resolve_flatten, function entry / exit empty ---------- *)
@@ -673,7 +670,7 @@ Proof.
     cbn [forallb] in Hok. apply andb_prop in Hok as [H1 H2]. cbn [fold_right]. split; auto.
   - cbn [okI] in Hok. cbn [nb]. induction IHb as [|y b Hy _ IH]; [exact I|].
     cbn [forallb] in Hok. apply andb_prop in Hok as [H1 H2]. cbn [fold_right]. split; auto.
-  - cbn [okI] in Hok. apply andb_prop in Hok as [Hok Hoke]. apply andb_prop in Hok as [_ Hokt]. cbn [nb]. split.
+  - cbn [okI] in Hok. apply andb_prop in Hok as [Hokt Hoke]. cbn [nb]. split.
     + clear Hoke IHe. induction IHt as [|y b Hy _ IH]; [exact I|].
       cbn [forallb] in Hokt. apply andb_prop in Hokt as [H1 H2]. cbn [fold_right]. split; auto.
     + clear Hokt IHt. induction IHe as [|y b Hy _ IH]; [exact I|].
@@ -893,44 +890,43 @@ Proof.
   apply (G fb []).
 Qed.
 
-Lemma forallb_lift4 {A} (P1 P2 P3 Q : A -> bool) l :
-  Forall (fun x => P1 x = true -> P2 x = true -> P3 x = true -> Q x = true) l ->
-  forallb P1 l = true -> forallb P2 l = true -> forallb P3 l = true -> forallb Q l = true.
+Lemma forallb_lift3 {A} (P1 P3 Q : A -> bool) l :
+  Forall (fun x => P1 x = true -> P3 x = true -> Q x = true) l ->
+  forallb P1 l = true -> forallb P3 l = true -> forallb Q l = true.
 Proof.
-  induction 1 as [|x l Hx _ IH]; intros H1 H2 H3; [reflexivity|].
-  cbn [forallb] in *. apply andb_prop in H1 as [? ?]. apply andb_prop in H2 as [? ?]. apply andb_prop in H3 as [? ?].
+  induction 1 as [|x l Hx _ IH]; intros H1 H3; [reflexivity|].
+  cbn [forallb] in *. apply andb_prop in H1 as [? ?]. apply andb_prop in H3 as [? ?].
   rewrite Hx, IH; auto.
 Qed.
 
-(* the fragment as CheckSem.tree_tie tests it (fuel-indexed predicates) implies [okI] on parsed trees *)
-Lemma checksem_okI F x : forall n n',
-  instr_no_branch_sa F n x = true -> instr_no_d15 F n' x = true -> plainok x = true -> okI F x = true.
+(* the fragment as CheckSem.tree_tie tests it (fuel-indexed predicate) implies [okI] on parsed trees *)
+Lemma checksem_okI F x : forall n,
+  instr_no_branch_sa F n x = true -> plainok x = true -> okI F x = true.
 Proof.
   induction x as [i o|i e bt b IHb|i e bt b IHb|i el e bt t els IHt IHe] using instr_ind2;
-    intros [|n] [|n'] H1 H2 H3; try discriminate H1; try discriminate H2.
+    intros [|n] H1 H3; try discriminate H1.
   - cbn [okI plainok] in *. rewrite H3. destruct o; cbn in H1 |- *; auto.
-  - cbn [okI plainok instr_no_branch_sa instr_no_d15] in *.
-    eapply forallb_lift4; [|exact H1|exact H2|exact H3].
+  - cbn [okI plainok instr_no_branch_sa] in *.
+    eapply forallb_lift3; [|exact H1|exact H3].
     eapply Forall_impl; [|exact IHb]. intros x Hx. apply Hx.
-  - cbn [okI plainok instr_no_branch_sa instr_no_d15] in *.
-    eapply forallb_lift4; [|exact H1|exact H2|exact H3].
+  - cbn [okI plainok instr_no_branch_sa] in *.
+    eapply forallb_lift3; [|exact H1|exact H3].
     eapply Forall_impl; [|exact IHb]. intros x Hx. apply Hx.
-  - cbn [okI plainok instr_no_branch_sa instr_no_d15] in *.
-    apply andb_prop in H1 as [H1t H1e]. apply andb_prop in H2 as [H2 H2e]. apply andb_prop in H2 as [Hd H2t].
-    apply andb_prop in H3 as [H3t H3e]. rewrite Hd. cbn [andb]. apply andb_true_intro. split.
-    + eapply forallb_lift4; [|exact H1t|exact H2t|exact H3t]. eapply Forall_impl; [|exact IHt]. intros x Hx. apply Hx.
-    + eapply forallb_lift4; [|exact H1e|exact H2e|exact H3e]. eapply Forall_impl; [|exact IHe]. intros x Hx. apply Hx.
+  - cbn [okI plainok instr_no_branch_sa] in *.
+    apply andb_prop in H1 as [H1t H1e]. apply andb_prop in H3 as [H3t H3e]. apply andb_true_intro. split.
+    + eapply forallb_lift3; [|exact H1t|exact H3t]. eapply Forall_impl; [|exact IHt]. intros x Hx. apply Hx.
+    + eapply forallb_lift3; [|exact H1e|exact H3e]. eapply Forall_impl; [|exact IHe]. intros x Hx. apply Hx.
 Qed.
 
-Theorem model_flatten (c : lcase) t fe fb sp n n' :
+Theorem model_flatten (c : lcase) t fe fb sp n :
   parse_body (c_body c) = Some (t, fe) ->
   apply_plan false (c_plan c) (map (fun o => (o, no_flags)) (c_body c)) false = Some (fb, sp) ->
   forallb (fun x => nonreplacing (snd x)) fb = true ->
-  forallb (instr_no_branch_sa (flags_fn fb) n) t = true -> forallb (instr_no_d15 (flags_fn fb) n') t = true ->
+  forallb (instr_no_branch_sa (flags_fn fb) n) t = true ->
   c_entry c = [] -> c_exit c = [] ->
   model c = Some (flat (flat_map (lower (flags_fn fb) []) t) ++ f_before (flags_fn fb fe) ++ [FEnd], c_groups c).
 Proof.
-  intros Hp Ha Hnr Hsa Hd Hen Hex.
+  intros Hp Ha Hnr Hsa Hen Hex.
   set (F := flags_fn fb) in *.
   assert (Hops : map fst fb = c_body c).
   { rewrite (apply_plan_ops _ _ _ _ _ _ Ha), map_map. cbn [fst]. apply map_id. }
@@ -943,7 +939,7 @@ Proof.
     rewrite forallb_forall in Hnr. specialize (Hnr _ Hin). unfold nonreplacing in Hnr.
     apply andb_prop in Hnr as [H1 H2]. destruct (f_alt _); [discriminate|]. destruct (f_balt _); [discriminate|]. auto. }
   assert (Hok : forallb (okI F) t = true).
-  { eapply (forallb_lift4 (instr_no_branch_sa F n) (instr_no_d15 F n') plainok); [|exact Hsa|exact Hd|exact Hpl].
+  { eapply (forallb_lift3 (instr_no_branch_sa F n) plainok); [|exact Hsa|exact Hpl].
     apply Forall_forall. intros x _. apply checksem_okI. }
   unfold model. rewrite (apply_plan_ma _ false), Ha, Hen, Hex. cbn [is_nil negb orb]. rewrite !orb_false_r.
   destruct (resolve_flatten F t fe (c_exit_ty c) (mkLocals (c_nparams c) (c_numlocals c) (c_groups c)) (conj HNR Hok)) as [R1 R2].
@@ -975,21 +971,23 @@ Qed.
 Lemma rstep3_orig_before E op orig st w : rstep3 op (w_before E orig) st w = rstep3 op orig st w.
 Proof.
   destruct op; cbn [rstep3]; unfold block_alt_case; cbn [w_before f_balt]; rewrite ?flag_stage_orig_before; try reflexivity.
-  - (* else *) unfold resolve_roe. rewrite ?flag_stage_orig_before. reflexivity.
+  - (* else *)
+    destruct (match r_stack st with [] => (st, w) | k :: _ => resolve_roe k st w end) as [st1 w1].
+    rewrite ?flag_stage_orig_before. reflexivity.
   - (* end *)
     destruct (r_stack st) as [|bid rest]; [rewrite ?flag_stage_orig_before; reflexivity|].
     assert (K : forall st0 w0,
-      (let '(st1, w1) := resolve_roe st0 w0 in
+      (let '(st1, w1) := resolve_roe bid st0 w0 in
        let '(st2, w2) := match ron_get bid (r_ron st1) with
                          | Some p => (set_ron (ron_remove bid (r_ron st1)) st1, resolve_pend2 p w1)
                          | None => (st1, w1) end in
        flag_stage FEnd (w_before E orig) st2 w2)
-      = (let '(st1, w1) := resolve_roe st0 w0 in
+      = (let '(st1, w1) := resolve_roe bid st0 w0 in
        let '(st2, w2) := match ron_get bid (r_ron st1) with
                          | Some p => (set_ron (ron_remove bid (r_ron st1)) st1, resolve_pend2 p w1)
                          | None => (st1, w1) end in
        flag_stage FEnd orig st2 w2)).
-    { intros st0 w0. unfold resolve_roe. destruct (ron_get bid _); rewrite flag_stage_orig_before; reflexivity. }
+    { intros st0 w0. destruct (resolve_roe bid st0 w0) as [st1 w1]. destruct (ron_get bid _); rewrite flag_stage_orig_before; reflexivity. }
     destruct (r_del (set_stack rest st)) as [dd|]; [|apply K].
     destruct (Nat.eqb dd bid); [|reflexivity].
     destruct (negb (r_retain (set_del None (set_stack rest st)))); [reflexivity|apply K].
@@ -1045,18 +1043,18 @@ Proof. intros H i. unfold with0. destruct (Nat.eqb i 0); cbn [w_before f_alt f_b
 Lemma forallb_ext_Forall {A} (P Q : A -> bool) l : Forall (fun x => P x = Q x) l -> forallb P l = forallb Q l.
 Proof. induction 1 as [|x l Hx _ IH]; [reflexivity|]. cbn [forallb]. rewrite Hx, IH. reflexivity. Qed.
 
-Lemma okI_ext F G : (forall i, f_sa (F i) = f_sa (G i) /\ f_bx (F i) = f_bx (G i)) -> forall x, okI F x = okI G x.
+Lemma okI_ext F G : (forall i, f_sa (F i) = f_sa (G i)) -> forall x, okI F x = okI G x.
 Proof.
   intros H. induction x as [i o|i e bt b IHb|i e bt b IHb|i el e bt t els IHt IHe] using instr_ind2; cbn [okI].
-  - rewrite (proj1 (H i)). reflexivity.
+  - rewrite (H i). reflexivity.
   - apply forallb_ext_Forall. exact IHb.
   - apply forallb_ext_Forall. exact IHb.
-  - rewrite (proj2 (H i)), (forallb_ext_Forall _ _ _ IHt), (forallb_ext_Forall _ _ _ IHe). reflexivity.
+  - rewrite (forallb_ext_Forall _ _ _ IHt), (forallb_ext_Forall _ _ _ IHe). reflexivity.
 Qed.
 Lemma okI_with0 c F t : forallb (okI (with0 c F)) t = forallb (okI F) t.
 Proof.
   apply forallb_ext_Forall. apply Forall_forall. intros x _. apply okI_ext.
-  intros i. unfold with0. destruct (Nat.eqb i 0); cbn [w_before f_sa f_bx]; auto.
+  intros i. unfold with0. destruct (Nat.eqb i 0); cbn [w_before f_sa]; auto.
 Qed.
 
 Lemma flat_map_ext_Forall {A B} (f g : A -> list B) l : Forall (fun x => f x = g x) l -> flat_map f l = flat_map g l.
@@ -1122,7 +1120,7 @@ Proof.
     exists w. rewrite !app_nil_r. split; [exact E|auto].
   - exists (FIf bt), i. eexists. eexists. eexists. split; [reflexivity|]. intros c.
     apply (mid_emit_c F X HNR last idx (FIf bt) i (St X d ret [] m loc) _ [] (be_ F i) c Hlt eq_refl eq_refl).
-    intros w0. destruct (step_if3 F X HNR bt i d ret [] m loc w0 Hm) as (w & E & W1 & W2 & W3).
+    intros w0. destruct (step_if3 F X HNR bt i d ret [] m loc w0 Hm eq_refl) as (w & E & W1 & W2 & W3).
     exists w. rewrite !app_nil_r. split; [exact E|auto].
 Qed.
 
@@ -1277,13 +1275,13 @@ Qed.
 
 (* ---------- the theorem for CheckLow.model with function entry / exit probes: exactly the equation
    CheckSem.tree_tie tests on every sampled case ---------- *)
-Theorem model_flatten_fn (c : lcase) t fe fb sp n n' :
+Theorem model_flatten_fn (c : lcase) t fe fb sp n :
   parse_body (c_body c) = Some (t, fe) ->
   apply_plan false (c_plan c) (map (fun o => (o, no_flags)) (c_body c)) false = Some (fb, sp) ->
   forallb (fun x => nonreplacing (snd x)) fb = true ->
   let F0 := with0 (c_entry c) (flags_fn fb) in
   let pre := f_before (F0 0) in
-  forallb (instr_no_branch_sa F0 n) t = true -> forallb (instr_no_d15 F0 n') t = true ->
+  forallb (instr_no_branch_sa F0 n) t = true ->
   (c_exit c <> [] -> t <> []) ->
   exists body, model c = Some (body, c_groups c) /\
     match c_exit c with
@@ -1292,7 +1290,7 @@ Theorem model_flatten_fn (c : lcase) t fe fb sp n n' :
                         /\ flat (fn_tree F0 (c_exit c) (c_exit_ty c) t fe) ++ [FEnd] = FBlock (BtFunc (c_exit_ty c)) :: pre ++ rest
     end.
 Proof.
-  intros Hp Ha Hnr F0 pre Hsa Hd Hne.
+  intros Hp Ha Hnr F0 pre Hsa Hne.
   set (F := flags_fn fb) in *.
   assert (Hops : map fst fb = c_body c).
   { rewrite (apply_plan_ops _ _ _ _ _ _ Ha), map_map. cbn [fst]. apply map_id. }
@@ -1305,7 +1303,7 @@ Proof.
     apply andb_prop in Hnr as [H1 H2]. destruct (f_alt _); [discriminate|]. destruct (f_balt _); [discriminate|]. auto. }
   assert (Hok : forallb (okI F) t = true).
   { rewrite <- (okI_with0 (c_entry c)). fold F0.
-    eapply (forallb_lift4 (instr_no_branch_sa F0 n) (instr_no_d15 F0 n') plainok); [|exact Hsa|exact Hd|exact Hpl].
+    eapply (forallb_lift3 (instr_no_branch_sa F0 n) plainok); [|exact Hsa|exact Hpl].
     apply Forall_forall. intros x _. apply checksem_okI. }
   set (loc := mkLocals (c_nparams c) (c_numlocals c) (c_groups c)).
   pose proof (resolve_flatten_fn F (c_body c) t fe (c_entry c) (c_exit c) (c_exit_ty c) loc Hp HNR Hok Hne) as R.
@@ -1335,7 +1333,7 @@ Proof. intros H i. unfold TreeLower.F0. destruct (Nat.eqb i 0); cbn [clear_befor
 Lemma okI_F0 F t : forallb (okI (TreeLower.F0 F)) t = forallb (okI F) t.
 Proof.
   apply forallb_ext_Forall. apply Forall_forall. intros x _. apply okI_ext.
-  intros i. unfold TreeLower.F0. destruct (Nat.eqb_spec i 0) as [->|]; cbn [clear_before f_sa f_bx]; auto.
+  intros i. unfold TreeLower.F0. destruct (Nat.eqb_spec i 0) as [->|]; cbn [clear_before f_sa]; auto.
 Qed.
 Lemma F0_with0 e F p : TreeLower.F0 (with0 e F) p = TreeLower.F0 F p.
 Proof. unfold TreeLower.F0, with0. destruct (Nat.eqb_spec p 0) as [->|Hp]; [reflexivity|]. destruct (Nat.eqb_spec p 0); [contradiction|reflexivity]. Qed.
@@ -1554,18 +1552,18 @@ Definition tie_body (Fe : nat -> flags) (X : list fop) (ty : N) (t : list instr)
   | _ => f_before (Fe 0) ++ FBlock (BtFunc ty) :: (flat (flat_map (lower (TreeLower.F0 Fe) X) t) ++ f_before (Fe fe)) ++ [FEnd] ++ X ++ [FEnd]
   end.
 
-Theorem model_flatten_real (c : lcase) t fe fb sp n n' :
+Theorem model_flatten_real (c : lcase) t fe fb sp n :
   parse_body (c_body c) = Some (t, fe) ->
   apply_plan false (c_plan c) (map (fun o => (o, no_flags)) (c_body c)) false = Some (fb, sp) ->
   forallb (fun x => nonreplacing (snd x)) fb = true ->
   let Fe := with0 (c_entry c) (flags_fn fb) in
-  forallb (instr_no_branch_sa Fe n) t = true -> forallb (instr_no_d15 Fe n') t = true -> t <> [] ->
+  forallb (instr_no_branch_sa Fe n) t = true -> t <> [] ->
   model c = Some (tie_body Fe (c_exit c) (c_exit_ty c) t fe, c_groups c).
 Proof.
-  intros Hp Ha Hnr Fe Hsa Hd Hne.
+  intros Hp Ha Hnr Fe Hsa Hne.
   destruct (c_exit c) as [|x0 X0] eqn:EX.
   - (* no exit probes: model_flatten_fn *)
-    destruct (model_flatten_fn c t fe fb sp n n' Hp Ha Hnr Hsa Hd ltac:(intros; exact Hne)) as (body & Hm & Hb).
+    destruct (model_flatten_fn c t fe fb sp n Hp Ha Hnr Hsa ltac:(intros; exact Hne)) as (body & Hm & Hb).
     rewrite EX in Hb. rewrite Hm, Hb, flat_fn_tree_nil, <- app_assoc. reflexivity.
   - set (F := flags_fn fb) in *.
     assert (Hops : map fst fb = c_body c).
@@ -1579,7 +1577,7 @@ Proof.
       apply andb_prop in Hnr as [H1 H2]. destruct (f_alt _); [discriminate|]. destruct (f_balt _); [discriminate|]. auto. }
     assert (Hok : forallb (okI F) t = true).
     { rewrite <- (okI_with0 (c_entry c)). fold Fe.
-      eapply (forallb_lift4 (instr_no_branch_sa Fe n) (instr_no_d15 Fe n') plainok); [|exact Hsa|exact Hd|exact Hpl].
+      eapply (forallb_lift3 (instr_no_branch_sa Fe n) plainok); [|exact Hsa|exact Hpl].
       apply Forall_forall. intros x _. apply checksem_okI. }
     set (loc := mkLocals (c_nparams c) (c_numlocals c) (c_groups c)).
     destruct (resolve_flatten_real F (c_body c) t fe (c_entry c) (x0 :: X0) (c_exit_ty c) loc Hp HNR Hok Hne) as [R1 R2].
@@ -1618,16 +1616,16 @@ Proof.
   unfold flagged_body.
   destruct (apply_plan false (c_plan (s_l c)) (map (fun o => (o, no_flags)) (c_body (s_l c))) false) as [[fb sp]|] eqn:Ha; [|reflexivity].
   match goal with |- (if ?cond then _ else _) = true => destruct cond eqn:Hc; [|reflexivity] end.
-  apply andb_prop in Hc as [Hc Hd]. apply andb_prop in Hc as [Hc Hsa]. apply andb_prop in Hc as [Hnr Hne].
+  apply andb_prop in Hc as [Hc Hsa]. apply andb_prop in Hc as [Hnr Hne].
   assert (Hne' : t <> []) by (destruct t; [discriminate Hne|discriminate]).
-  pose proof (model_flatten_real (s_l c) t fe fb sp _ _ Hp Ha Hnr Hsa Hd Hne') as M.
+  pose proof (model_flatten_real (s_l c) t fe fb sp _ Hp Ha Hnr Hsa Hne') as M.
   rewrite Hm in M. inversion M as [[Hb Hg]].
   unfold obs_body. rewrite Ho, Hb. unfold tie_body.
   destruct (c_exit (s_l c)); apply list_fop_eqb_refl.
 Qed.
 (* ------------------------------------------------------------------------------------------ *)
 (* Non-triviality: a nested block / if-else / loop with before, after, block-entry, block-exit and semantic-after
-   probes on every structural instruction lies in the fragment; and outside it (D15 shape) the equation is false. *)
+   probes on every structural instruction lies in the fragment; so does the former D15 shape. *)
 Definition exP (n : Z) : list fop := [FConst n; FDrop].
 Definition exF (i : nat) : flags :=
   match i with
@@ -1655,13 +1653,18 @@ Example ex_frag : frag exF exT.
 Proof.
   split; [|reflexivity]. intros i. do 11 (destruct i as [|i]; [split; reflexivity|]). split; reflexivity.
 Qed.
-(* D15 shape: block-exit on an `if` whose then-arm contains a block; the pass emits the exit code at the inner end *)
+(* the former D15 shape: block-exit on an `if` whose then-arm contains a block.  Before the repair of D15 the pass
+   emitted the exit code at the inner end; it is now keyed by the if's own block id and the equation holds. *)
 Definition exD15 : list instr := [IIf 2 None 8 BtEmpty [IBlock 5 7 BtEmpty []] []].
-Example resolve_flatten_false_on_D15 :
-  forallb (okI exF) exD15 = false /\
+Example resolve_flatten_former_D15_witness_holds :
+  frag exF exD15 /\
   emit (fst (resolve true [] [] 0%N (flatF exF exD15 ++ [(FEnd, exF 10)]) (mkLocals 0 0 [])))
-  <> flat (flat_map (lower exF []) exD15) ++ f_before (exF 10) ++ [FEnd].
-Proof. split; [reflexivity|]. vm_compute. discriminate. Qed.
+  = flat (flat_map (lower exF []) exD15) ++ f_before (exF 10) ++ [FEnd].
+Proof.
+  assert (H : frag exF exD15).
+  { split; [|reflexivity]. intros i. do 11 (destruct i as [|i]; [split; reflexivity|]). split; reflexivity. }
+  split; [exact H|]. apply (resolve_flatten exF exD15 10 0%N (mkLocals 0 0 []) H).
+Qed.
 
 Print Assumptions resolve_flatten.
 Print Assumptions parse_body_flat.
